@@ -3,7 +3,7 @@
    "count", of the invocation history).  Used only by the correspondence check. *)
 From Coq Require Import ZArith List Bool String.
 From Common Require Import Str Cases.
-From Rpc Require Import Json Models JsonRpc.
+From Rpc Require Import Json Models JsonRpc Inspector.
 Import ListNotations.
 Open Scope Z_scope.
 
@@ -69,3 +69,23 @@ Definition ep_case_ok (v : version) (c : ep_case) : bool :=
   let '(ms, empty, utf8_ok, i, o, l) := c in
   let '(o', l') := endpoint v corr_pok ms corr_call empty utf8_ok i in
   endpoint_out_eqb o' o && list_eqb entry_eqb l' l.
+
+(* Inspector: table reported by inspect, the JSON core.describe returned (None: constructor raised) *)
+Definition describe_case_ok (c : itable * option json) : bool :=
+  let '(t, expected) := c in
+  match describe t, expected with
+  | Some d, Some j => json_equiv (describe_json d) j
+  | None, None => true
+  | _, _ => false
+  end.
+
+(* every described name resolves to a callable on the wrapper table of instances, and is public *)
+Definition describe_resolves_ok (c : itable * mounts) : bool :=
+  let '(t, ms) := c in
+  match describe t with
+  | Some d => forallb (fun kv => match get_method ms (fst kv) with
+                                 | TCall e => public_entry_b ms e
+                                 | _ => false
+                                 end) d
+  | None => true
+  end.
